@@ -198,6 +198,7 @@ func Locksets(fn *ssa.Function, entry lockset) *LockInfo {
 					if !ok {
 						continue // not yet computed: optimistic
 					}
+					o = tryLockEdge(p, b, o)
 					if first {
 						s = o.clone()
 						first = false
@@ -488,3 +489,32 @@ func MutexFields(t *types.Named) []string {
 
 // HeldPaths returns the lock paths held before in.
 func (li *LockInfo) HeldPaths(in ssa.Instruction) map[string]int { return li.at[in] }
+
+// tryLockEdge: if pred ends in `if mu.TryLock()` the lock is held on the true edge.
+func tryLockEdge(pred, succ *ssa.BasicBlock, o lockset) lockset {
+	if len(pred.Instrs) == 0 {
+		return o
+	}
+	ifi, ok := pred.Instrs[len(pred.Instrs)-1].(*ssa.If)
+	if !ok || pred.Succs[0] == pred.Succs[1] {
+		return o
+	}
+	f := normFact(Fact{Cond: ifi.Cond, Val: succ == pred.Succs[0]})
+	call, ok := f.Cond.(*ssa.Call)
+	if !ok || !f.Val {
+		return o
+	}
+	mode := 0
+	switch CallName(call) {
+	case "(*sync.Mutex).TryLock", "(*sync.RWMutex).TryLock":
+		mode = 2
+	case "(*sync.RWMutex).TryRLock":
+		mode = 1
+	}
+	if mode == 0 {
+		return o
+	}
+	n := o.clone()
+	n[AccessPath(Receiver(call))] = mode
+	return n
+}
